@@ -925,7 +925,11 @@ class Verifier:
         decl0 = cls.loop_locals.get(ordinal, {})
         for nm, sp in decl0.items():
             if nm not in fr.locals:
-                (st, v), = list(self.make(st, sp, nm + "@entry"))
+                made = list(self.make(st, sp, nm + "@entry"))
+                if len(made) != 1:
+                    raise Unsupported("loop variable %s (declared with alternatives) is not bound when loop %d of %s is entered"
+                                      % (nm, ordinal, cls.qualname))
+                (st, v), = made
                 fr = st.frames[-1]
                 fr.locals[nm] = v
         for inv in invs:
